@@ -267,7 +267,21 @@ def run_pure(ctx):
     for i in range(ctx.n(40, 200)):
         k = r.randint(0, 6)
         recs.append([[r.choice(["Book", "book", "shelf", "Shelf", "a", "B", "zoo", "Zoo", "item_1", "Item-2"]), f"t{j}"] for j in range(k)])
-    out = gen.impl("c10_pure", {"texts": texts, "recs": recs})
+    # selective generation requests: the order of the pruned schema dicts (model: prune_decl)
+    selective = []
+    for i in range(1, ctx.n(10, 60)):
+        if i % 4 not in (1, 2):
+            continue
+        try:
+            api, feats, retry, yaml = stress_api(env.rng("C10-api", i), i)
+            req = api.request("transport=grpc", extra_files=api.extra_deps + api.extra_targets, to_generate=[f.proto.name for f in api.files + api.extra_targets])
+        except apigen.Invalid:
+            continue
+        if not any(f.startswith("selective-generation") for f in feats):
+            continue
+        req = gen.with_params(req, [req.parameter], gen.case_dir(f"c10-prune-{i}"), service_yaml=yaml, retry=None)
+        selective.append({"index": i, "request_b64": base64.b64encode(req.SerializeToString()).decode(), "features": feats})
+    out = gen.impl("c10_pure", {"texts": texts, "recs": recs, "selective": selective})
     # direct oracle on the combinators themselves: the same call in processes with other hash seeds
     for seed in (["1", "2", "3"] if ctx.quick() else [str(i) for i in range(1, 9)]):
         other = gen.impl("c10_pure", {"texts": texts, "recs": recs}, hashseed=seed)
@@ -288,8 +302,14 @@ def run_pure(ctx):
         want = coq.lst(f"({coq.s(a)}, {coq.s(b)})" for a, b in got)
         checks.append((f"jinja sort {rec}", f"list_eqb (pair_eqb String.eqb String.eqb) (jinja_sort fst {term}) {want}"))
         checks.append((f"sorted {rec}", f"list_eqb String.eqb (sorted_strs {coq.slist([a for a, _ in rec])}) {coq.slist(srt)}"))
+    for sel, rows in zip(selective, out["prune"]):
+        for row in rows:
+            ctx.case({"prune": sel["index"], "file": row["file"], "dict": row["dict"]}, nontrivial=0 < len(row["pruned"]) < len(row["decl"]) and len(row["pruned"]) > 1,
+                     feature="pruned-" + row["dict"])
+            checks.append((f"selective api #{sel['index']} {row['file']} {row['dict']}: pruned keys {row['pruned'][:6]} of declared {row['decl'][:6]}",
+                           f"list_eqb String.eqb (prune_decl {coq.slist(row['decl'])} {coq.slist(sorted(row['pruned']))}) {coq.slist(row['pruned'])}"))
     failing, errors, nf = coq.eval_checks("c10pure", "From GV Require Import Model.Determ.", "", checks)
-    ctx.oblige(f"T2 model = implementation on {len(checks)} evaluations of sort_lines / sorted / Jinja sort", not failing and not errors,
+    ctx.oblige(f"T2 model = implementation on {len(checks)} evaluations of sort_lines / sorted / Jinja sort / selective pruning order", not failing and not errors,
                "; ".join((failing + errors)[:6]))
 
 
